@@ -80,6 +80,18 @@ CLAIMED = {
          "Machine-checked theorems over the Gallina model of rand.go: the two-stage rejection test equals low < 2^32 mod n; (k,t) -> ceil((k*2^32+thresh)/n)+t is a bijection from [0,n) x [0,floor(2^32/n)) onto the accepted 32-bit draws with output k (exact uniformity for every n < 2^32); the shuffle is Fisher-Yates on the accepted draws, which is a bijection from draw sequences onto all arrangements (permutation, surjective, injective), whatever the caller's order. The extracted model is run against csprngUint32n/csprngShuffle (exported under -tags verif) on boundary source values and on every draw sequence for n<=6.",
          NOTE_COMMON + "Identity-hiding clause: checked on every sealed message by the C01/C03 campaigns' wire oracles (sender key and hidden/box recipients' keys absent from the bytes, visible recipients exactly once); secrecy of ciphertexts is NaCl's assumption.",
          "DESIGN.md section 5 C19"),
+ "C15": ("Coq proof (no panic outcome on any input, for the three receivers, dearmor and the classifier; inventory of panic-capable constructs regenerated from /repo pinned by a theorem) + hostile-input campaign under recover/deadline/allocation budget",
+         "Machine-checked theorems over the Gallina model in which every Go panic of the receive path is an explicit Panic outcome: for every input byte string, every keyring/resolver and every crypto record, verify (attached, detached), decrypt (given the secretbox length fact) and signcryption-open end in an ordinary error or a clean end under validators admitting only majors 1 and 2 (the shipped ones are such); no receiver hands chunkReader an empty non-final chunk; dearmor and the armored classifier never reach their panics. The translator regenerates the per-function inventory of panic(), index, slice, length-helper and type-assertion constructs of the receive/dearmor/classify files and the theorem C15_inventory_covered pins it. The campaign drives 14 entry points with structure-aware MessagePack-tree mutations, length bombs and armored-text mutations against misbehaving keyrings (nil, wrong-length, foreign keys, nil ephemeral import) under recover with a deadline and an allocation budget, and compares outcomes with the model's.",
+         NOTE_COMMON + "PARTIAL: go-codec's own robustness on hostile bytes, allocation bounded by supplied bytes and real-time termination are observed by the campaign (deadline, allocation counters), not proved. Validators admitting unknown major versions are excluded by hypothesis (the code documents that the caller is responsible).",
+         "DESIGN.md section 5 C15"),
+ "C16": ("Coq proof (prefix stability and soundness of the binary and armored classifiers for every genuine message and every cut) + differential correspondence on every prefix",
+         "Machine-checked theorems over the Gallina model of classify_and_decrypt.go: for every spec-following message of every mode and version 0..127, any further header fields and any payload, every prefix shorter than 23 bytes is 'need more data' and every longer one is exactly (mode, version); for its armored form, any cut inside the header sentence is 'need more data' and any cut in the body is 'need more data' or exactly (brand, mode, version); a positive binary answer really parses as format name/version/mode and a positive armored answer carries that mode's label, brand and a first block decoding to such a header. The extracted classifiers are run against IsSaltpackBinarySlice / IsSaltpackArmoredPrefix / ClassifyStream on every prefix of genuine messages of all modes and on mutated prefixes; ClassifyEncryptedStreamAndMakeDecoder is checked to dispatch to a decoder that returns the plaintext.",
+         NOTE_COMMON + "PARTIAL: bufio.Peek/regexp behaviour is modelled; the dispatch to the matching decoder is decided by the campaign only.",
+         "DESIGN.md section 5 C16"),
+ "C20": ("Coq proof (interleaving independence of calls that share only immutable state; shared-state inventory regenerated from /repo pinned by a theorem) + race-detector campaign",
+         "Machine-checked theorems: in an interleaving semantics where each call owns its state and shared state is read-only, every interleaving of any set of calls gives each call the result of running it alone; the translator regenerates the inventory of package-level variables and of every assignment/pointer-receiver call that could write through them or through a shared *basex.Encoding, and the theorem C20_no_shared_writes pins it (empty). The campaign runs mixed concurrent workloads of all operations under the Go race detector with GOMAXPROCS 1/2/4/16 and compares each result with its sequential run.",
+         NOTE_COMMON + "PARTIAL by nature: the Go memory model, the completeness of the race detector and of the syntactic inventory (no alias analysis) are trusted; a theorem cannot exhibit a data race in the runtime.",
+         "DESIGN.md section 5 C20"),
 }
 
 LEVELS = {}
